@@ -448,6 +448,26 @@ def explore_params(ctx, extended=False):
                           "(values that compare equal across types share a cached result)",
                           value=f"{(cq or 'str').split('.')[-1]}({v!r})", after_others=with_history,
                           alone=alone)
+        # what the reader returns is the caller's: editing it must not change a later parse
+        for text in ('X;MEMBER="a","b":v', 'X;K=a,b;L=c:v', 'X;K="p q":v'):
+            F.n += 1
+            try:
+                shared = TextInterp(model)
+                n1, p1, v1 = shared.run(shared.getattr(shared.instantiate(CL, [text], {}), "parts"), [], {})
+                before = {k: norm_value(v) for k, v in _params_dict(shared, p1).items()}
+                for k, v in list(p1.items.items()):
+                    if isinstance(v, list):
+                        v.append("edited")
+                    else:
+                        p1.items[k] = "edited"
+                n2, p2, v2 = shared.run(shared.getattr(shared.instantiate(CL, [text], {}), "parts"), [], {})
+                after = {k: norm_value(v) for k, v in _params_dict(shared, p2).items()}
+                if after != before:
+                    F.add("history", "parsing the same content line again gives other parameters after the "
+                          "first result was edited (parsed values are shared with a cache)",
+                          line=text, first=before, second=after)
+            except AbsRaise as e:
+                F.add("history", f"parsing a content line twice raises {e.cls_name}", line=text)
         # reader side: quoted / unquoted forms, strictness
         for text, want in (('K="a,b"', {"K": "a,b"}), ('K="a","b"', {"K": ["a", "b"]}),
                            ('K=a,"b;c"', {"K": ["a", "b;c"]}), ('k=Abc', {"K": "Abc"}),
